@@ -78,6 +78,12 @@ func init() {
 	})
 	add(false, "Array[2.5,true]", func() *variants.Variant { return arr(variants.VariantFromDouble(2.5), variants.VariantFromBoolean(true)) })
 	add(false, "Array[[1],'b']", func() *variants.Variant { return arr(arr(variants.VariantFromInteger(1)), variants.VariantFromString("b")) })
+	// an array that grew through an indexed write past its end (the skipped positions are nulls)
+	add(true, "Array[grown:null,null,5]", func() *variants.Variant {
+		v := variants.VariantFromArray([]*variants.Variant{})
+		v.SetByIndex(2, variants.VariantFromInteger(5))
+		return v
+	})
 	add(true, "Object({7})", func() *variants.Variant { return variants.VariantFromObject(c20Obj{7}) })
 	add(false, "Object({8})", func() *variants.Variant { return variants.VariantFromObject(c20Obj{8}) })
 }
